@@ -320,6 +320,8 @@ def run_jaxley_chain(module, topo, P, dt, solver, tag, timeout_ms=30000):
     top = rt.reglob(SV.step_voltage_implicit_with_jaxley_spsolve).__reglob__
     top.__globals__.update({"_triang_branched": tb, "_backsub_branched": real_bb})
     info = {"refused": ""}
+    for f in ("step_voltage_implicit_with_jaxley_spsolve", "_triang_branched", "_backsub_branched"):
+        rt.reached[f"jaxley.solver_voltage.{f}"] = rt.reached.get(f"jaxley.solver_voltage.{f}", 0) + 1
     try:
         out = top(P["v"], P["a"], P["c"], g, np.asarray(module._internal_node_inds), sinks, sources, types, L.ncomp,
                   L.par_inds, L.child_inds, L.nb, solver, dt, L.idx, {})
@@ -408,3 +410,141 @@ def run_sparse(module, topo, P, dt, tag, timeout_ms=30000):
     ret_ok = len(out) == N and all(out[i].e.eq(Xs[int(internal[i])].e) for i in range(N))
     structural("solver_voltage.step_voltage_implicit_with_jax_spsolve:returns the solution at the compartment nodes", ret_ok)
     return results, {"reached": dict(rt.reached)}
+
+
+def run_step_schemes(module, topo, tag, timeout_ms=30000):
+    """Module.step: which scheme is applied for each (solver, voltage_solver).  The implicit solvers are contract stubs
+    (their bodies are verified by run_jaxley_chain / run_sparse): result H = solution of the backward-Euler system for
+    the delta_t they receive."""
+    import jaxley.modules.base as MB
+    import jaxley.solver_voltage as SV
+    from .sym import Proxy
+    results = []
+
+    def prove(name, hyps, goal):
+        r = D.prove(f"{name}[{tag}]", hyps, goal, timeout_ms=timeout_ms, use_cvc5=False)
+        results.append(r.to_json())
+        return r.status == "proved"
+
+    def structural(name, ok, detail=""):
+        results.append({"name": f"{name}[{tag}]", "status": "proved" if ok else "refuted", "backend": "structural", "time_s": 0.0, "model": {}, "detail": detail})
+    N = topo.N
+    mk = lambda nm, n=N: SymArray(np.asarray([Sym(z3.Real(f"{nm}{i}")) for i in range(n)], dtype=object))
+    dt = Sym(z3.Real("dt"))
+    reached = {}
+    refusals = []
+    for solver in ("bwd_euler", "crank_nicolson", "fwd_euler"):
+        for vs in ("jaxley.thomas", "jaxley.stone", "jax.sparse"):
+            Ctx.reset()
+            rt = Runtime()
+            calls = []
+            H = mk("h")
+
+            def stub_jaxley(**kw):
+                calls.append(("jaxley", kw))
+                return H
+
+            def stub_sparse(**kw):
+                calls.append(("sparse", kw))
+                return H
+            rt.stub(SV.step_voltage_implicit_with_jaxley_spsolve, stub_jaxley)
+            rt.stub(SV.step_voltage_implicit_with_jax_spsolve, stub_sparse)
+            v = mk("v")
+            params = {"radius": mk("r"), "length": mk("l"), "axial_resistivity": mk("ra"), "capacitance": mk("cm")}
+            ne = len(module._comp_edges)
+            params["axial_conductances"] = mk("g", ne)
+            px = Proxy(module, rt)
+            u = {"v": v}
+            I = Sym(z3.Real("I0"))
+            ext = {"i": SymArray(np.asarray([I], dtype=object))}
+            ext_inds = {"i": np.asarray([N - 1])}
+            nm = f"Module.step[{solver},{vs}]"
+            try:
+                new = px.step(dict(u), dt, ext_inds, ext, params, solver=solver, voltage_solver=vs)
+            except Exception as e:
+                # A refusal with an error is within the property.  Expected refusals: fwd_euler on branched morphologies
+                # (NotImplementedError), with the jax.sparse backend (TypeError: unexpected keyword), or on branches with
+                # different compartment numbers (reshape error).  An implicit scheme must never refuse here.
+                uneven = len(set(int(topo.last[b] - topo.first[b]) for b in range(topo.nbranches))) > 1
+                expected = solver == "fwd_euler" and (topo.B > 0 or vs == "jax.sparse" or uneven)
+                structural(f"{nm}:raises only where a refusal is expected (fwd_euler: branched / jax.sparse / uneven branches)", expected,
+                           f"{type(e).__name__}: {str(e)[:100]}")
+                refusals.append(f"{solver}/{vs}: {type(e).__name__}: {str(e)[:80]}")
+                continue
+            reached.update(rt.reached)
+            # stimulus conversion: I nA on compartment N-1 -> I*1e5/(2 pi r l) uA/cm2, divided by cm
+            iext = [Sym(0)] * N
+            iext[N - 1] = I * 100000 / (2 * cable.PI * params["radius"][N - 1] * params["length"][N - 1])
+            cterm = [iext[i] / params["capacitance"][i] for i in range(N)]
+            pos = [s.e > 0 for k in ("radius", "length", "capacitance") for s in params[k]] + D.PI_FACTS
+            if solver in ("bwd_euler", "crank_nicolson"):
+                ok = len(calls) == 1 and calls[0][0] == ("sparse" if vs == "jax.sparse" else "jaxley")
+                structural(f"{nm}:exactly one implicit solve, routed to the selected backend", ok)
+                if not ok:
+                    continue
+                kw = calls[0][1]
+                want_dt = dt.e if solver == "bwd_euler" else dt.e / 2
+                prove(f"{nm}:implicit solve receives delta_t {'dt' if solver == 'bwd_euler' else 'dt/2'}", [], Sym.lift(kw["delta_t"]).e == want_dt)
+                structural(f"{nm}:implicit solve receives the current voltages", all(kw["voltages"][i].e.eq(v[i].e) for i in range(N)))
+                structural(f"{nm}:backend name passed through", vs == "jax.sparse" or kw.get("solver") == vs)
+                vt = kw["voltage_terms"]
+                ct = kw["constant_terms"]
+                prove(f"{nm}:membrane terms are divided by the capacitance (passive, one stimulus)", pos,
+                      z3.And(*[Sym.lift(vt[i]).e == 0 for i in range(N)], *[Sym.lift(ct[i]).e == cterm[i].e for i in range(N)]))
+                structural(f"{nm}:axial conductances passed unchanged", all(kw["axial_conductances"][k].e.eq(params["axial_conductances"][k].e) for k in range(ne)))
+                if solver == "bwd_euler":
+                    structural(f"{nm}:returns the implicit solution", all(new["v"][i].e.eq(H[i].e) for i in range(N)))
+                else:
+                    prove(f"{nm}:returns 2*h - v (Crank-Nicolson from the implicit half step)", [], z3.And(*[new["v"][i].e == 2 * H[i].e - v[i].e for i in range(N)]))
+            else:
+                # forward Euler (unbranched only): x = v + dt*(c - M v) with M, c from the specification
+                P = dict(params)
+                P["a"] = SymArray(np.asarray([Sym(0)] * N, dtype=object))
+                P["c"] = SymArray(np.asarray(cterm, dtype=object))
+                P["v"] = v
+                from jaxley.utils.cell_utils import compute_axial_conductances
+                g = Runtime().reglob(compute_axial_conductances)(module._comp_edges, {k: P[k] for k in ("radius", "length", "axial_resistivity", "capacitance")})
+                # re-run with the real conductances so that the result is comparable with the physical specification
+                Ctx.reset()
+                rt2 = Runtime()
+                px2 = Proxy(module, rt2)
+                p2 = dict(params)
+                p2["axial_conductances"] = g
+                new2 = px2.step(dict(u), dt, ext_inds, ext, p2, solver=solver, voltage_solver=vs)
+                spec = cable.system(topo, P, dt)
+                for i in range(N):
+                    co, rhs = spec[i]
+                    expl = v[i] + (rhs - sum((s * v[c] for c, s in co.items()), Sym(0)))
+                    prove(f"{nm}:compartment {i} == v + dt*(c - M v) (explicit Euler of the specification operator)", pos + [s.e > 0 for s in params["axial_resistivity"]],
+                          new2["v"][i].e == expl.e)
+    return results, {"reached": reached, "refused": refusals}
+
+
+def crank_nicolson_lemma(topo, tag, timeout_ms=30000):
+    """If h solves the backward-Euler specification system for dt/2, then x = 2h - v solves the Crank-Nicolson system
+    (I + dt/2 M) x = (I - dt/2 M) v + dt c with the same Kirchhoff constraints at the branch points."""
+    results = []
+    N, B = topo.N, topo.B
+    mk = lambda nm, n=N: SymArray(np.asarray([Sym(z3.Real(f"{nm}{i}")) for i in range(n)], dtype=object))
+    P = {"radius": mk("r"), "length": mk("l"), "axial_resistivity": mk("ra"), "capacitance": mk("cm"), "a": mk("a"), "c": mk("c"), "v": mk("v")}
+    dt = Sym(z3.Real("dt"))
+    half = cable.system(topo, P, dt / 2)
+    h = [z3.Real(f"h{i}") for i in range(N + B)]
+    vfull = [P["v"][i].e for i in range(N)] + [z3.Real(f"vb{j}") for j in range(B)]
+    x = [2 * h[i] - vfull[i] for i in range(N + B)]
+    hyps = [dt.e > 0] + [s.e > 0 for k in ("radius", "length", "axial_resistivity", "capacitance") for s in P[k]] + D.PI_FACTS
+    for r, (co, rhs) in enumerate(half):
+        hyps.append(sum((s.e * h[c] for c, s in co.items()), z3.RealVal(0)) == rhs.e)
+    for r in range(N, N + B):        # the previous voltages are Kirchhoff-consistent at the branch points
+        co, rhs = half[r]
+        hyps.append(sum((s.e * vfull[c] for c, s in co.items()), z3.RealVal(0)) == 0)
+    for r, (co, rhs) in enumerate(half):
+        Ax = sum((s.e * x[c] for c, s in co.items()), z3.RealVal(0))
+        if r < N:
+            Av = sum((s.e * vfull[c] for c, s in co.items()), z3.RealVal(0))
+            goal = Ax == 2 * vfull[r] - Av + dt.e * P["c"][r].e
+        else:
+            goal = Ax == 0
+        res = D.prove(f"lemma:crank_nicolson row[{r}]: A(dt/2)(2h-v) == (2I-A(dt/2))v + dt c[{tag}]", hyps, goal, timeout_ms=timeout_ms, use_cvc5=False)
+        results.append(res.to_json())
+    return results
